@@ -69,8 +69,11 @@ def _worker(args):
     prop, case = args
     t0 = time.time()
     try:
-        mod = _load("bounded", prop)
-        out = mod.run_case(case)
+        if case.get("_witness"):
+            out = _load("proofs", prop).native_replay(case)
+        else:
+            mod = _load("bounded", prop)
+            out = mod.run_case(case)
         res = [r if isinstance(r, dict) else Res(*r) for r in (out or [])]
         return dict(case=case, results=res, error=None, wall=time.time() - t0)
     except Exception as e:  # noqa: BLE001
@@ -385,7 +388,7 @@ def replay(prop, path, known):
         payload = json.load(f)
     ob = payload["obligation"]
     case = payload.get("case")
-    if case is not None and _load("bounded", prop) is not None:
+    if case is not None and (_load("bounded", prop) is not None or case.get("_witness")):
         _worker_init()
         o = _worker((prop, case))
         if o["error"] is not None:
